@@ -250,3 +250,90 @@ def cap_callee(prog):
                           '' if ok else '`%s` appends in a loop that never compares the cursor with the length parameter: input longer '
                           'than the caller\'s buffer overruns it' % show(n)[:40], 'cursor tested against the length inside the loop'))
     return RuleResult('R-CAP(b)', obs, 4, {})
+
+
+def ptr_into_array(prog, scope, an=None):
+    """R-IDX(ptr): a local pointer initialised to an element of a fixed-size array (`T *p = arr + e;` / `&arr[e]`, same
+    element type) and then subscripted or dereferenced (`p[k]`, `*(p + k)`) stays inside the array: e + k is proven
+    in [0, bound).  Today's tree has no such pointer (the pool walkers cast to a record type and are covered by T-SIB(b)
+    / POOL-FIT); the rule exists so that replacing per-byte accessor calls by raw pointer arithmetic into
+    MemoryPage::bin and similar arrays is decided rather than invisible."""
+    an = an or Analyzer(prog)
+    obs = []
+    nfn = 0
+    for fn in prog.functions(scope):
+        if not fn.blocks:
+            continue
+        nfn += 1
+        ptrs = {}
+        for n in fn.nodes.values():
+            if n['k'] != 'DeclStmt':
+                continue
+            for d, i in zip([x for x in n.get('decls', ()) if x.get('init')], kids(n)):
+                t = fn.types[d['t']]
+                if '*' not in t:
+                    continue
+                e = i
+                # no reinterpreting cast on the way
+                reinterpret = False
+                x = e
+                while x['k'] in ('ImplicitCastExpr', 'ParenExpr', 'CStyleCastExpr', 'CXXReinterpretCastExpr', 'CXXStaticCastExpr'):
+                    if x['k'] in ('CStyleCastExpr', 'CXXReinterpretCastExpr') and x.get('ck') in ('BitCast',):
+                        reinterpret = True
+                    x = kids(x)[0]
+                e = x
+                arr = off = None
+                if e['k'] == 'BinaryOperator' and e.get('op') == '+':
+                    a = strip(kids(e)[0], casts=True)
+                    ta = fn.type(a) or ''
+                    if '[' in ta and a['k'] in ('MemberExpr', 'DeclRefExpr'):
+                        arr, off = a, kids(e)[1]
+                elif e['k'] == 'UnaryOperator' and e.get('op') == '&':
+                    a = strip(kids(e)[0])
+                    if a['k'] == 'ArraySubscriptExpr' and 'bound' in a:
+                        arr, off = strip(kids(a)[0], casts=True), kids(a)[1]
+                if arr is None or reinterpret:
+                    continue
+                ta = fn.type(arr) or ''
+                try:
+                    B = int(ta.split('[')[1].split(']')[0])
+                except (IndexError, ValueError):
+                    continue
+                ptrs[d['d']] = (d['n'], arr, off, B, n)
+        if not ptrs:
+            continue
+        fa = an._fa_cache(fn)
+        for n in sorted(fn.nodes.values(), key=lambda x: x['i']):
+            k = None
+            base = None
+            if n['k'] == 'ArraySubscriptExpr':
+                b = strip(kids(n)[0], casts=True)
+                if b['k'] == 'DeclRefExpr' and b.get('d') in ptrs:
+                    base, k = b['d'], kids(n)[1]
+            elif n['k'] == 'UnaryOperator' and n.get('op') == '*':
+                b = strip(kids(n)[0], casts=True)
+                if b['k'] == 'DeclRefExpr' and b.get('d') in ptrs:
+                    base, k = b['d'], None
+                elif b['k'] == 'BinaryOperator' and b.get('op') == '+':
+                    bb = strip(kids(b)[0], casts=True)
+                    if bb['k'] == 'DeclRefExpr' and bb.get('d') in ptrs:
+                        base, k = bb['d'], kids(b)[1]
+            if base is None:
+                continue
+            name, arr, off, B, decl = ptrs[base]
+            o_iv = fa.eval_at(off, decl)
+            k_iv = (0, 0) if k is None else fa.eval_own(k)
+            lo = None if o_iv[0] is None or k_iv[0] is None else o_iv[0] + k_iv[0]
+            hi = None if o_iv[1] is None or k_iv[1] is None else o_iv[1] + k_iv[1]
+            ok = lo is not None and hi is not None and lo >= 0 and hi < B
+            if not ok and k_iv == (0, 0):
+                # the pointer itself is taken to address an element (its construction is the callee's contract)
+                obs.append(Ob('R-IDX', fn.file, n['l'], fn.q, 'ptr:%s->%s' % (name, show(arr)[-20:]), OBSERVATION,
+                              'element the pointer was set to; offset %s not decided' % (o_iv,)))
+                continue
+            obs.append(Ob('R-IDX', fn.file, n['l'], fn.q, 'ptr:%s->%s' % (name, show(arr)[-20:]), DISCHARGED if ok else VIOLATED,
+                          '' if ok else '`%s` reads through `%s = %s + %s`: offset %s plus index %s is not proven inside [0, %d): an '
+                          'element near the end of the array makes this run past it (for a 64 KiB page: a 16/32-bit value that '
+                          'straddles the page boundary)' % (show(n)[:30], name, show(arr), show(off)[:30], o_iv, k_iv, B),
+                          'offset + index inside the array'))
+    return RuleResult('R-IDX(ptr)', obs, 0, {'functions': nfn})
